@@ -221,7 +221,7 @@ def stripMarks (token : List Char) : Except PyErr (List Char × Marks) :=
     let t3 := match mppSearch t1 with | none => t1 | some (b, _) => b
     let mapping := (mppSearch t1).map (·.2)
     let t4 := match strSearch t3 with | none => t3 | some (b, _, a) => b ++ a
-    let stereo := (strSearch t3).map fun (_, m, _) => m == ['@']
+    let stereo := (strSearch t3).map fun x => x.2.1 == ['@']
     .ok (t4, { isotope, charge := none, mapping, stereo })
   | some (b, m, a) =>
     match lookupC m chargeDict with
@@ -231,7 +231,7 @@ def stripMarks (token : List Char) : Except PyErr (List Char × Marks) :=
       let t3 := match mppSearch t2 with | none => t2 | some (b, _) => b
       let mapping := (mppSearch t2).map (·.2)
       let t4 := match strSearch t3 with | none => t3 | some (b, _, a) => b ++ a
-      let stereo := (strSearch t3).map fun (_, m, _) => m == ['@']
+      let stereo := (strSearch t3).map fun x => x.2.1 == ['@']
       .ok (t4, { isotope, charge := some c, mapping, stereo })
 
 def mkElem : List ElemTok → ElemSpec
